@@ -2564,3 +2564,142 @@ V('c20-filelock-unlock-in-outer-finally', 'C20', 'R20.4', CONC,
                 raise TimeoutError()
         finally:
             self._unlock()''')
+
+# ---------------------------------------------------------------- round 4
+MODUTF7 = 'pymap/parsing/modutf7.py'
+V('c01-select-exists-from-snapshot', 'C01', 'R1.11', STATE,
+  'resp.add_untagged(ExistsResponse(messages.exists))',
+  'resp.add_untagged(ExistsResponse(mailbox.exists))')
+V('c01-select-exists-twin-inline', 'C01', 'R1.11', STATE,
+  '''        messages = updates.messages
+        resp.add_untagged(FlagsResponse(mailbox.flags))
+        resp.add_untagged(ExistsResponse(messages.exists))''',
+  '''        resp.add_untagged(FlagsResponse(mailbox.flags))
+        resp.add_untagged(ExistsResponse(updates.messages.exists))''',
+  expect='silent')
+V('c02-discard-marks-clears-pending', 'C02', 'R2.10', SEL,
+  '''        self._silenced_sflags.clear()
+
+    def fork(''', '''        self._silenced_sflags.clear()
+        self._messages._pending_remove.clear()
+
+    def fork(''')
+V('c02-pending-cleared-before-applied', 'C02', 'R2.10', SEL,
+  '''        if pending:
+            self._pending_remove.update(uids)
+        else:''', '''        if pending:
+            self._pending_remove.clear()
+            self._pending_remove.update(uids)
+        else:''')
+V('c02-pending-twin-rebind-after-loop', 'C02', 'R2.10', SEL,
+  '''                    any_removed = True
+            self._pending_remove.clear()''',
+  '''                    any_removed = True
+            self._pending_remove = set()''', expect='silent')
+V('c06-idle-done-pattern-rejects-cr', 'C06', 'R6.14', SELECTCMD,
+  r"_pattern = re.compile(br'^(.*?)\r?\n')",
+  r"_pattern = re.compile(br'^([^\r\n]*)\r?\n')")
+V('c06-idle-done-twin-greedy', 'C06', 'R6.14', SELECTCMD,
+  r"_pattern = re.compile(br'^(.*?)\r?\n')",
+  r"_pattern = re.compile(br'^([^\n]*)\r?\n')", expect='silent')
+V('c06-auth-b64-handler-dropped', 'C06', 'R6.14', IMAP,
+  '''                try:
+                    resp_dec = b64decode(resp_bytes)
+                except binascii.Error as exc:
+                    raise AuthenticationError() from exc
+                else:
+                    responses.append(ChallengeResponse(chal.data, resp_dec))''',
+  '''                resp_dec = b64decode(resp_bytes)
+                responses.append(ChallengeResponse(chal.data, resp_dec))''')
+V('c06-idle-eof-handler-dropped', 'C06', 'R6.14', IMAP,
+  '''                except (CancelledError, ConnectionError, EOFError):
+                    await self.send_error_disconnect()
+                    break''',
+  '''                except (CancelledError, ConnectionError):
+                    await self.send_error_disconnect()
+                    break''')
+V('c07-get-size-fast-path', 'C07', 'R7.11', MSGPY,
+  '''    def get_size(self, section: Sequence[int] | None = None) -> int:
+        try:''',
+  '''    def get_size(self, section: Sequence[int] | None = None) -> int:
+        if not section:
+            return len(self.content)
+        try:''')
+V('c07-envelope-handler-dropped', 'C07', 'R7.11', MSGPY,
+  '''        try:
+            return self._get_envelope_structure(self.content)
+        except _NoContent:
+            return EnvelopeStructure.empty()''',
+  '''        return self._get_envelope_structure(self.content)''')
+V('c07-get-size-twin-valueerror', 'C07', 'R7.11', MSGPY,
+  '''        try:
+            msg = self._get_subpart(section)
+        except (IndexError, _NoContent):
+            return 0
+        return len(msg)''',
+  '''        try:
+            msg = self._get_subpart(section)
+        except (IndexError, ValueError):
+            return 0
+        return len(msg)''', expect='silent')
+V('c09-authorize-prepared-compare-local', 'C09', 'R9.4', DICTINIT,
+  '''        if authcid != authzid and 'admin' not in roles:
+            raise AuthorizationFailure()
+        return Identity(authzid, self, None, roles)''',
+  '''        prepare = self.config.password_prep
+        try:
+            same_identity = prepare(authcid) == prepare(authzid)
+        except ValueError:
+            same_identity = False
+        if not same_identity and 'admin' not in roles:
+            raise AuthorizationFailure()
+        return Identity(authzid, self, None, roles)''')
+V('c11-rename-replace-all', 'C11', 'R11.6', LAYOUT,
+  'dest_elem = dest_subdir + elem[len(subdir):]',
+  'dest_elem = elem.replace(subdir, dest_subdir)')
+V('c11-rename-twin-removeprefix', 'C11', 'R11.6', LAYOUT,
+  'dest_elem = dest_subdir + elem[len(subdir):]',
+  'dest_elem = dest_subdir + elem.removeprefix(subdir)', expect='silent')
+V('c13-contains-returns-first-text-part', 'C13', 'R13.9', MSGPY,
+  '''                if pattern.search(bytes(part.body)) is not None:
+                    return True
+        return False''',
+  '''                return pattern.search(bytes(part.body)) is not None
+        return False''')
+V('c13-contains-twin-any', 'C13', 'R13.9', MSGPY,
+  '''        for part in content.walk():
+            if pattern.search(bytes(part.header)) is not None:
+                return True
+            elif part.body.content_type.maintype == 'text':
+                if pattern.search(bytes(part.body)) is not None:
+                    return True
+        return False''',
+  '''        for part in content.walk():
+            if pattern.search(bytes(part.header)) is not None:
+                return True
+            if part.body.content_type.maintype != 'text':
+                continue
+            if pattern.search(bytes(part.body)) is not None:
+                return True
+        return False''', expect='silent')
+V('c14-undo-only-if-more-than-one', 'C14', 'R14.2', SESS,
+  '''            await mbx.delete(uids)
+            raise''', '''            if len(uids) > 1:
+                await mbx.delete(uids)
+            raise''')
+V('c14-undo-twin-if-any', 'C14', 'R14.2', SESS,
+  '''            await mbx.delete(uids)
+            raise''', '''            if uids:
+                await mbx.delete(uids)
+            raise''', expect='silent')
+V('c18-modutf7-lstrip-plus', 'C18', 'R18.9', MODUTF7,
+  '''    src_utf7 = src.encode('utf-7')
+    return src_utf7[1:-1].replace(b'/', b',')''',
+  '''    src_utf7 = src.encode('utf-7').lstrip(b'+').rstrip(b'-')
+    return src_utf7.replace(b'/', b',')''')
+V('c18-modutf7-twin-removeprefix', 'C18', 'R18.9', MODUTF7,
+  '''    src_utf7 = src.encode('utf-7')
+    return src_utf7[1:-1].replace(b'/', b',')''',
+  '''    src_utf7 = src.encode('utf-7')
+    payload = src_utf7.removeprefix(b'+').removesuffix(b'-')
+    return payload.replace(b'/', b',')''', expect='silent')
